@@ -80,3 +80,15 @@ Theorem C16_modelled_functions_are_the_source's :
   gen_src_groupby_var = src_groupby_var.
 Proof. exact pin_groupby_var. Qed.
 Print Assumptions C16_modelled_functions_are_the_source's.
+
+(* the bit-exact transcription of GroupBy.var on float64 in primitive floats (Model/VarFloat64.v) that C16's stream runs inside
+   Coq against the real method.  The example is the cancellation the rounding bound above allows for: three values of spread 1
+   at offset 1e8 (exact sample variance 1) come out as 0 from the one-pass formula - bit for bit what the implementation returns -
+   while the same values without the offset give exactly 1. *)
+From Coq Require Import PrimFloat.
+From GL Require Model.VarFloat64.
+Example C16_float_model_example :
+  VarFloat64.same_floatV (VarFloat64.var_f64 1 [100000001; 100000002; nan; 100000003]%float) 0%float = true /\
+  VarFloat64.same_floatV (VarFloat64.var_f64 1 [1; 2; nan; 3]%float) 1%float = true /\
+  VarFloat64.same_floatV (VarFloat64.var_f64 1 [5]%float) nan = true.
+Proof. vm_compute. repeat split. Qed.
